@@ -103,7 +103,9 @@ class C18(Prop):
         "graph; with no data lost the graph is exactly the inputs; every port of the mapper built by create_graph_mapper "
         "carries a token of that graph, so a step selected by get_step_ids has graph tokens on all its input ports and on "
         "an output port; a job step (private job port) is selected only if a LOST token of the graph sits on one of its "
-        "output ports; GraphMapper's add/move_token_to_root/replace_token/remove_port keep both graphs mirror-consistent, "
+        "output ports (STEP granularity); per JOB (step, tag) a job token is in the graph only if the job is the failed one "
+        "or one of its own outputs is lost; the tokens _inject_tokens injects are available graph tokens and those handed to "
+        "Step.restore (ScatterStep's valid tags) are unavailable graph tokens of the port; GraphMapper's add/move_token_to_root/replace_token/remove_port keep both graphs mirror-consistent, "
         "token_availability and token_instances with the same keys and every listed token under its own single port. "
         "Engine level (exercised, not proved): real workflows (scatter/gather and pipelines) run on the local deployment "
         "with injected soft or data-losing failures (also two concurrent ones sharing a producer of lost data) and real "
@@ -111,8 +113,10 @@ class C18(Prop):
         "the model's recovery graph computed from the provenance dumped from the real database with independently "
         "recorded availability, and may run at most once more per distinct lost token made by it. "
         "PARTIAL: no theorem that create_graph_mapper copies the graph edge by edge, nor about _update_token's effect on "
-        "the token graph when two tokens are 'equal' (compared with the real classes instead); _synchronize_workflows, "
-        "_populate_workflow, _inject_tokens and Step.restore are exercised by the engine runs only.")
+        "the token graph when two tokens are 'equal' (compared with the real classes instead); that a job re-executed in "
+        "the recovery workflow has its job token in the recovery graph (the dataflow of the recovery workflow: which TAGS "
+        "of a selected step run again) is not proved, it is checked on every engine run; _synchronize_workflows, "
+        "_populate_workflow, the boundary rules of _inject_tokens and Step.restore are exercised by the engine runs only.")
     LEVEL_NOTE = (
         "Trusted: Coq kernel + vm_compute; hand-written models ProvGraph/Model.v and Graph/Model.v (tied to the code by "
         "the correspondence run only); the database, Token.is_available and is_recovering are a finite table in the model; "
@@ -348,6 +352,27 @@ class C18(Prop):
             return obs
         obs["mapper"] = self._mobs(mapper)
         obs["steps"] = sorted(await mapper.get_step_ids([pname(n) for n in c["out_names"]]))
+        # the real _inject_tokens on recording ports: which tokens are put into which port, in which order
+        from streamflow.recovery import failure_manager as fm
+
+        class _Port:
+            def __init__(self, name):
+                self.name, self.got = name, []
+
+            def put(self, token):
+                self.got.append(token.persistent_id)
+
+        class _Ports(dict):
+            def __missing__(self, k):
+                self[k] = _Port(k)
+                return self[k]
+
+        wf = SimpleNamespace(ports=_Ports())
+        try:
+            await fm._inject_tokens(None, SimpleNamespace(output_ports={}), mapper, wf)
+            obs["inject"] = sorted([int(k[1:]), v.got] for k, v in wf.ports.items())
+        except self.FHE:
+            obs["inject"] = "EFailure"
         return obs
 
     def _ptok(self, t):
@@ -501,7 +526,10 @@ class C18(Prop):
             # data made by the job was lost len(lost_out[j]) times (distinct lost tokens, however many recoveries
             # needed them): that many re-executions are justified, not one per recovery
             losses = len(lost_out.get(j, ()))
-            if n > 1 + max(losses, 1):
+            if losses == 0:
+                return ("rerun-without-loss", f"job {j} ran {n} times: it is not a failing job {sorted(failed)} and no token "
+                                              f"made by it is lost (its outputs are all on disk)")
+            if n > 1 + losses:
                 return ("rerun-too-often", f"job {j} ran {n} times but only {losses} token(s) made by it were lost "
                                            f"(needed by {len(o['events'])} recovery plan(s))")
         if not failed and rerun:
@@ -548,6 +576,7 @@ class C18(Prop):
             return f"CEngine {coq_list(evs)} {coq_list(ids)}"
         if c["f"] == "plan":
             b = o["build"]
+            it = "None"
             if b == "err":
                 bt, mt, st = "BObsErr", "None", "[]"
             else:
@@ -555,10 +584,12 @@ class C18(Prop):
                       f"{coq_list([f'({coq_N(k)},{coq_bool(v)})' for k, v in b['avail']])})")
                 mt = f"(Some {self._mobs_term(o['mapper'])})"
                 st = ns(o.get("steps", []))
+                if isinstance(o.get("inject"), list):
+                    it = "(Some " + coq_list([f"({coq_N(p)},{ns(sorted(ts))})" for p, ts in o["inject"]]) + ")"
             steps = coq_list([f"(mkStep {coq_N(s['id'])} {ns(s['in'])} {ns(s['out'])})" for s in c["steps"]])
             ports = coq_list([f"({coq_N(a)},{coq_N(b)})" for a, b in c["ports"]])
             return (f"CPlan {coq_list([self._tok(t) for t in c['db']])} {ns(c['inputs'])} {steps} {ports} "
-                    f"{ns(c['out_names'])} {bt} {mt} {st}")
+                    f"{ns(c['out_names'])} {bt} {mt} {st} {it}")
         terms = []
         for op, s in zip(c["ops"], o["steps"]):
             if op[0] == "add":
